@@ -39,6 +39,9 @@ const (
 	streamOpened streamState = iota
 	streamClosed
 	streamHalfClosed
+	// streamLocalHalfClosed: Close() was called while the data callback was running; the callback goroutine
+	// finishes the close. Unlike streamHalfClosed the peer has not been told yet.
+	streamLocalHalfClosed
 )
 
 const (
@@ -284,7 +287,7 @@ func (s *Stream) Close() error {
 		atomic.StoreUint32(&s.callbackCloseState, uint32(callbackWaitExit))
 	}
 	if atomic.LoadUint32(&s.callbackInProcess) == 1 {
-		atomic.CompareAndSwapUint32(&s.state, uint32(streamOpened), uint32(streamHalfClosed))
+		atomic.CompareAndSwapUint32(&s.state, uint32(streamOpened), uint32(streamLocalHalfClosed))
 		return nil
 	}
 
@@ -304,7 +307,7 @@ func (s *Stream) close() error {
 			s.asyncGoroutineWg.Wait()
 		}
 		s.clean()
-		if oldState == uint32(streamOpened) {
+		if oldState == uint32(streamOpened) || oldState == uint32(streamLocalHalfClosed) {
 			s.safeCloseNotify()
 			callback := s.getCallbacks()
 			if callback != nil {
